@@ -170,6 +170,35 @@ def run(ctx, broken):
     m = bytearray(prover); m[off_ck + 8:off_ck + 8 + 48] = P_MOD.to_bytes(48, "little"); add("proverdec", "prover", "raw-point-limbs-p", bytes(m))
     m = bytearray(prover); m[off_ck + 8:off_ck + 8 + 96] = b"\xff" * 96; m[off_ck + 8 + 96] = 1; add("proverdec", "prover", "raw-identity-garbage", bytes(m))
     m = bytearray(prover); m[off_ck:off_ck + 8] = (0).to_bytes(8, "little"); add("proverdec", "prover", "commit-key-len-0", bytes(m))
+    # embedded EvaluationDomain headers (one in front of every evaluation vector of the prover key): replaced by the CANONICAL
+    # header of a much larger domain whose evaluations are not there — a decoder that sizes a buffer from the header before
+    # checking the remaining length allocates 32 * 2^k bytes for a few hundred bytes of input
+    def domain_header(k):
+        n = 1 << k
+        w = pow(7, (R - 1) >> k, R) if k else 1
+        le32 = lambda v: (v % R).to_bytes(32, "little")
+        return n.to_bytes(8, "little") + k.to_bytes(4, "little") + le32(n) + le32(inv(n)) + le32(w) + le32(inv(w)) + le32(inv(7))
+    found = 0
+    for k0 in range(1, 16):
+        h0 = domain_header(k0)
+        pos = prover.find(h0)
+        occ = []
+        while pos != -1:
+            occ.append(pos); pos = prover.find(h0, pos + 1)
+        if not occ:
+            continue
+        found += len(occ)
+        for pos in [occ[0], occ[len(occ) // 2], occ[-1]]:
+            for k1 in (20, 24, 27, 31):
+                m = bytearray(prover); m[pos:pos + len(h0)] = domain_header(k1)
+                add("proverdec", "prover", "embedded-domain-header-2^%d" % k1, bytes(m)); cs[-1]["expect_prefix"] = "err"
+                # the same with everything after the header cut off (a ~250 byte input)
+                add("proverdec", "prover", "embedded-domain-header-2^%d-truncated" % k1, bytes(m[:pos + len(h0)])); cs[-1]["expect_prefix"] = "err"
+    if not found:
+        ctx.violation("machinery:domain-header-not-found", {"why": "no canonical evaluation-domain header found in the prover bytes"}, no_input=True)
+    # a hand-made blob: just a canonical header of a huge domain, as an evaluation vector on its own
+    for k1 in (20, 27, 31):
+        add("evalsdec", "evaluations", "lone-domain-header-2^%d" % k1, domain_header(k1)); cs[-1]["expect_prefix"] = "err"
     # the verifier key carried inside the prover: every ill-formed commitment in every slot
     p_lab, p_pk, p_ck = (int.from_bytes(prover[8 * i:8 * i + 8], "big") for i in range(3))
     p_vk = 48 + p_lab + p_pk + p_ck
